@@ -388,12 +388,22 @@ type replayOut struct {
 	confirmed bool
 }
 
+var replayAttempts int
+
 func writeReplay(dir, prop string, r *engine.Result, why, scratch string) replayOut {
 	_ = os.MkdirAll(dir, 0755)
 	name := strings.NewReplacer("/", "_", ":", "_", " ", "_", "#", "_", "(", "", ")", "", "*", "P", "$", "_").Replace(r.Obl.Name)
 	path := filepath.Join(dir, name+".json")
 	query, _ := os.ReadFile(r.QueryFile)
-	rep := engine.TryReplay(r, repoDir(), scratch)
+	// at most four model-driven replays per run (each costs solver time and a `go test`); further failed
+	// obligations are still reported, with their query, as no-failing-input-found
+	var rep *engine.ReplayInfo
+	if replayAttempts < 4 {
+		replayAttempts++
+		rep = engine.TryReplay(r, repoDir(), scratch)
+	} else {
+		rep = &engine.ReplayInfo{Note: "replay not attempted: four earlier obligations of this run were already replayed"}
+	}
 	doc := map[string]any{
 		"property":       prop,
 		"obligation":     r.Obl.Name,
@@ -546,6 +556,14 @@ func cmdSelftest(args []string) int {
 			cmd.Dir = repo
 			if out, err := cmd.CombinedOutput(); err != nil {
 				fmt.Printf("FAIL %s: patch does not apply: %v %s\n", meta.Name, err, out)
+				bad++
+				return
+			}
+			bld := exec.Command("go", "build", "./...")
+			bld.Dir = repo
+			bld.Env = append(os.Environ(), "GOFLAGS=-mod=mod", "GOPROXY=off", "GOSUMDB=off", "GOTOOLCHAIN=local")
+			if out, err := bld.CombinedOutput(); err != nil {
+				fmt.Printf("FAIL %s: mutant does not compile: %s\n", meta.Name, indent(string(out)))
 				bad++
 				return
 			}
